@@ -25,20 +25,21 @@ Definition side_listing (f : fs) (L : listing) : listing :=
 Definition takes_part (f : fs) (p : path) : Prop :=
   p = [] \/ (fget f [] = Some NFolder /\ visible incl f p = true).
 
-(* Mirror, pointwise.  fl is the destination flavour. *)
-Definition mirror_at (fl : flavour) (S D D' : fs) (p : path) : Prop :=
+(* Mirror, pointwise.  fl is the destination flavour, diff whether it distinguishes file from folder links. *)
+Definition mirror_at (diff : bool) (fl : flavour) (S D D' : fs) (p : path) : Prop :=
   match fget S p with
   | None => fget D' p = None
   | Some NFolder => fget D' p = Some NFolder
-  | Some (NLink t k) => exists t' k', fget D' p = Some (NLink t' k') /\ normalize t' = normalize t
+  | Some (NLink t k) => exists t' k', fget D' p = Some (NLink t' k') /\ normalize t' = normalize t /\
+                                       (diff = false \/ k' = k)
   | Some (NFile m b) =>
       fget D' p = Some (NFile m b) \/
       (exists b0 m0, fget D p = Some (NFile m0 b0) /\ stamp_z now_z m0 = stamp_z now_z m /\ fget D' p = fget D p)
   end.
 
-Definition mirror (fl : flavour) (S D D' : fs) : Prop :=
+Definition mirror (diff : bool) (fl : flavour) (S D D' : fs) : Prop :=
   forall p,
-    ((takes_part S p /\ fget S p <> None) \/ (takes_part D p /\ fget D p <> None) -> mirror_at fl S D D' p) /\
+    ((takes_part S p /\ fget S p <> None) \/ (takes_part D p /\ fget D p <> None) -> mirror_at diff fl S D D' p) /\
     (~ (takes_part S p /\ fget S p <> None) -> ~ (takes_part D p /\ fget D p <> None) -> fget D' p = fget D p).
 
 End MirrorSpec.
